@@ -24,7 +24,7 @@ func init() {
 	})
 	register(&Check{
 		ID: "C07",
-		Rule: jsonFamilyRule + "; the same type-directed values are encoded and the JSON is judged against the source schema by an independent validator: required present, no undeclared keys unless additionalProperties is declared, null only where nullable, declared JSON types and formats, allOf merged into one object, the discriminated oneOf variant; a fifth of the request-body values also travel through the generated client and the captured wire body is validated; " +
+		Rule: jsonFamilyRule + "; the same type-directed values are encoded and the JSON is judged against the source schema by an independent validator: required present, no undeclared keys unless additionalProperties is declared, null only where nullable, declared JSON types and formats, allOf merged into one object, the discriminated oneOf variant; a fifth of the request-body values also travel through the generated client and the captured wire body is validated; every response type with a JSON body is returned from a handler with type-directed values and the bytes written are validated against the schema documented for that status; every response type with a JSON body is returned from a handler with type-directed values and the bytes written are validated against the schema documented for that status; " +
 			"non-trivial = value with an unset optional, a null or a non-empty collection; distinct by (type, shape of the JSON)",
 		Assume:    []string{"the purpose-built validator is the oracle; kin-openapi's schema visitor is not used for verdicts (v0.38 quirks must not become alarms)"},
 		Main:      func(e *Env) (*res.Result, error) { return jsonMain(e, "C07") },
